@@ -327,8 +327,8 @@ class NewStepSize(_Base):
             return
         order = S.status.iter if st.inst['cls'] == 'Adaptivity' else A.params.update_order
         at_end = S.status.iter == S.params.maxiter
-        formula = A.params.beta * L.params.dt * (A.params.e_tol / L.status.error_embedded_estimate) ** (1.0 / order)
         if bool(at_end):
+            formula = A.params.beta * L.params.dt * (A.params.e_tol / L.status.error_embedded_estimate) ** (1.0 / order)
             yield 'proposal_is_the_formula', seq(L.status.dt_new, formula)
         else:
             yield 'no_proposal_before_last_iteration', seq(L.status.dt_new, st.old_dtnew)
